@@ -60,22 +60,21 @@ Qed.
 
 Definition max_section : N := 33554432.
 
-Lemma ext_uv s : ext_car "binary.Uvarint" [VInts s] =
+(* everything below holds under ANY oracle that answers these four names as ext_car does (the callers use further
+   externals: the positioned reader) *)
+Variable ext : string -> list val -> option val.
+Hypothesis ext_uv : forall s, ext "binary.Uvarint" [VInts s] =
   match uvarint_dec (ns s) with
   | Some (v, n) => Some (VTuple [VInt (Z.of_N v); VInt (Z.of_nat n)])
   | None => Some (VTuple [VInt 0; VInt 0])
   end.
-Proof. reflexivity. Qed.
-Lemma ext_nr s : ext_car "bytes.NewReader" [VInts s] = Some (VInts s).
-Proof. reflexivity. Qed.
-Lemma ext_cid s : ext_car "cid.CidFromReader" [VInts s] =
+Hypothesis ext_nr : forall s, ext "bytes.NewReader" [VInts s] = Some (VInts s).
+Hypothesis ext_cid : forall s, ext "cid.CidFromReader" [VInts s] =
   match cid_parse (ns s) with
   | Some (c, k) => Some (VTuple [VInt (Z.of_nat k); cidv c; VNil])
   | None => Some (VTuple [VInt 0; cidv []; VErr "cid"])
   end.
-Proof. reflexivity. Qed.
-Lemma ext_eq a b : ext_car "*.Equals" [cidv a; cidv b] = Some (VBool (list_N_eqb a b)).
-Proof. unfold cidv. cbn. rewrite !ns_zs. reflexivity. Qed.
+Hypothesis ext_eq : forall a b, ext "*.Equals" [cidv a; cidv b] = Some (VBool (list_N_eqb a b)).
 
 (* what the translated function returns, case by case *)
 Definition parse_res (sec wanted : list N) : res :=
@@ -93,7 +92,7 @@ Definition parse_res (sec wanted : list N) : res :=
 
 Lemma parse_run fuel (sec wanted : list N) :
   Z.of_nat (List.length sec) < 4611686018427387904 ->
-  call prog ext_car fuel "parseNodeFromSection" [VInts (zs sec); cidv wanted] = parse_res sec wanted.
+  call prog ext fuel "parseNodeFromSection" [VInts (zs sec); cidv wanted] = parse_res sec wanted.
 Proof.
   intros Hlen. unfold parse_res.
   unfold call. rewrite prog_parse. unfold fn_parseNodeFromSection.
@@ -133,8 +132,8 @@ Theorem parse_is_parse_node fuel (sec wanted : list N) :
   Z.of_nat (List.length sec) < 4611686018427387904 ->
   (forall l n, uvarint_dec sec = Some (l, n) -> (l <= max_section)%N) ->
   match parse_node cid_parse sec wanted with
-  | Some d => call prog ext_car fuel "parseNodeFromSection" [VInts (zs sec); cidv wanted] = RRet (VTuple [VInts (zs d); VNil])
-  | None => is_fail (call prog ext_car fuel "parseNodeFromSection" [VInts (zs sec); cidv wanted])
+  | Some d => call prog ext fuel "parseNodeFromSection" [VInts (zs sec); cidv wanted] = RRet (VTuple [VInts (zs d); VNil])
+  | None => is_fail (call prog ext fuel "parseNodeFromSection" [VInts (zs sec); cidv wanted])
   end.
 Proof.
   intros Hlen Hmax. rewrite parse_run by exact Hlen. unfold parse_res, parse_node.
@@ -148,7 +147,7 @@ Qed.
 (* never the bytes of an object stored under another CID: a success means the section's CID is the wanted one *)
 Corollary parse_success_means_same_cid fuel (sec wanted : list N) out :
   Z.of_nat (List.length sec) < 4611686018427387904 ->
-  call prog ext_car fuel "parseNodeFromSection" [VInts (zs sec); cidv wanted] = RRet (VTuple [VInts out; VNil]) ->
+  call prog ext fuel "parseNodeFromSection" [VInts (zs sec); cidv wanted] = RRet (VTuple [VInts out; VNil]) ->
   exists l n k, uvarint_dec sec = Some (l, n) /\ cid_parse (skipn n sec) = Some (wanted, k) /\ out = zs (skipn k (skipn n sec)).
 Proof.
   intros Hlen. rewrite parse_run by exact Hlen. unfold parse_res.
@@ -162,7 +161,7 @@ Qed.
 (* without a wanted CID (the address-index fetcher passes nil): the bytes after whatever CID the section holds *)
 Theorem parse_without_wanted fuel (sec : list N) :
   Z.of_nat (List.length sec) < 4611686018427387904 ->
-  call prog ext_car fuel "parseNodeFromSection" [VInts (zs sec); VNil] =
+  call prog ext fuel "parseNodeFromSection" [VInts (zs sec); VNil] =
   match uvarint_dec sec with
   | None => RRet (VTuple [VInts []; VErr "fmt.Errorf"])
   | Some (l, n) =>
@@ -205,3 +204,114 @@ Proof.
 Qed.
 
 End Parse.
+
+(* ------------------------------------------------------------------ the canonical oracle *)
+Section Car.
+Variable prog : program.
+Hypothesis prog_parse : plookup "parseNodeFromSection" prog = Some fn_parseNodeFromSection.
+Variable cid_parse : list N -> option (list N * nat).
+Hypothesis cid_parse_len : forall r c k, cid_parse r = Some (c, k) -> (k <= List.length r)%nat.
+
+Lemma car_eq a b : ext_car cid_parse "*.Equals" [cidv a; cidv b] = Some (VBool (list_N_eqb a b)).
+Proof. unfold cidv. cbn. rewrite !ns_zs. reflexivity. Qed.
+
+Definition parse_is_parse_node_car :=
+  parse_is_parse_node prog prog_parse cid_parse cid_parse_len (ext_car cid_parse)
+    (fun _ => eq_refl) (fun _ => eq_refl) (fun _ => eq_refl) car_eq.
+Definition parse_success_means_same_cid_car :=
+  parse_success_means_same_cid prog prog_parse cid_parse cid_parse_len (ext_car cid_parse)
+    (fun _ => eq_refl) (fun _ => eq_refl) (fun _ => eq_refl) car_eq.
+Definition parse_without_wanted_car :=
+  parse_without_wanted prog prog_parse cid_parse cid_parse_len (ext_car cid_parse)
+    (fun _ => eq_refl) (fun _ => eq_refl) (fun _ => eq_refl) car_eq.
+End Car.
+
+(* ------------------------------------------------------------------ read + parse: the ReaderAt path of a fetch *)
+Section ReadNode.
+Variable prog : program.
+Hypothesis prog_parse : plookup "parseNodeFromSection" prog = Some fn_parseNodeFromSection.
+Hypothesis prog_readFullAt : plookup "readFullAt" prog = Some fn_readFullAt.
+Hypothesis prog_readNode : plookup "readNodeFromReaderAtWithOffsetAndSize" prog = Some fn_readNodeFromReaderAtWithOffsetAndSize.
+Variable cid_parse : list N -> option (list N * nat).
+Hypothesis cid_parse_len : forall r c k, cid_parse r = Some (c, k) -> (k <= List.length r)%nat.
+Variable file : list N.                        (* the CAR file behind the ReaderAt, possibly cut *)
+
+(* the positioned reader over the file: what is there, io.EOF when that is less than asked *)
+Definition ext_file : string -> list val -> option val := fun f args =>
+  match f, args with
+  | "io.ReaderAt.ReadAt", [VInts buf; VInt off] =>
+      let bs := firstn (List.length buf) (skipn (Z.to_nat off) file) in
+      Some (VTuple [VInt (Z.of_nat (List.length bs));
+                    (if (List.length bs =? List.length buf)%nat then VNil else VErr "io.EOF");
+                    VInts (blit buf O (zs bs))])
+  | _, _ => ext_car cid_parse f args
+  end.
+
+Theorem readNode_is_read_then_parse fuel rv (wanted : list N) (off len : nat) :
+  Z.of_nat off < 4611686018427387904 -> Z.of_nat len < 4611686018427387904 -> (1 <= len)%nat -> (2 <= fuel)%nat ->
+  call prog ext_file fuel "readNodeFromReaderAtWithOffsetAndSize" [rv; cidv wanted; VInt (Z.of_nat off); VInt (Z.of_nat len)] =
+  match ReadAt.read_at file off len with
+  | Some sec => parse_res cid_parse sec wanted
+  | None => RRet (VTuple [VInts []; VErr "io.EOF"])
+  end.
+Proof.
+  intros Hoff Hlen Hpos Hfuel. destruct fuel as [|[|fuel]]; try lia.
+  unfold call. rewrite prog_readNode. unfold fn_readNodeFromReaderAtWithOffsetAndSize.
+  cbn [f_params f_body bind_params]. go_run.
+  destruct (Z.ltb_spec (Z.of_nat len) 0) as [Hc|_]; [lia|]. go_run. rewrite Nat2Z.id.
+  rewrite exec_call_S. go_cbn. rewrite (wrap_i64_small (Z.of_nat off)) by lia. rewrite prog_readFullAt.
+  cbn [bind_params f_params fn_readFullAt f_body]. cbv beta iota. go_run.
+  unfold ext_file at 1. rewrite ?Nat2Z.id. rewrite repeat_length.
+  unfold ReadAt.read_at.
+  set (bs := firstn len (skipn off file)).
+  assert (Hbs : List.length bs = Nat.min len (List.length file - off)) by (unfold bs; rewrite firstn_length, skipn_length; reflexivity).
+  go_cbn. go_run. rewrite zlen_blit. unfold zlen. rewrite repeat_length.
+  destruct (Nat.leb_spec (off + len) (List.length file)) as [Hfit|Hcut].
+  - assert (Hl : List.length bs = len) by (rewrite Hbs; apply Nat.min_l; lia).
+    rewrite Hl. rewrite Nat.eqb_refl. rewrite Z.eqb_refl. go_run.
+    rewrite (blit_full (repeat 0 len) (zs bs)) by (unfold zs; rewrite map_length, repeat_length; exact Hl).
+    rewrite exec_call_S. go_cbn. rewrite prog_parse.
+    cbn [bind_params f_params fn_parseNodeFromSection]. cbv beta iota.
+    assert (Hbl : Z.of_nat (List.length bs) < 4611686018427387904) by (rewrite Hl; exact Hlen).
+    pose proof (parse_run prog prog_parse cid_parse cid_parse_len ext_file
+                  (fun _ => eq_refl) (fun _ => eq_refl) (fun _ => eq_refl) (car_eq cid_parse) (S fuel) bs wanted Hbl) as HP.
+    unfold call in HP. rewrite prog_parse in HP. cbn [bind_params f_params fn_parseNodeFromSection] in HP.
+    destruct (exec prog ext_file (S fuel) (f_body fn_parseNodeFromSection) [("section", VInts (zs bs)); ("wantedCid", cidv wanted)]) eqn:Hx;
+      unfold parse_res in HP |- *;
+      destruct (uvarint_dec bs) as [[l n]|]; try discriminate HP;
+      try (destruct (N.ltb max_section l)); try discriminate HP;
+      try (destruct (cid_parse (skipn n bs)) as [[c k]|]); try discriminate HP;
+      try (destruct (list_N_eqb c wanted)); try discriminate HP;
+      injection HP as ->; go_run; reflexivity.
+  - assert (Hl : (List.length bs < len)%nat) by (rewrite Hbs; apply Nat.min_lt_iff; right; lia).
+    destruct (Nat.eqb_spec (List.length bs) len) as [E|_]; [lia|].
+    destruct (Z.eqb_spec (Z.of_nat (List.length bs)) (Z.of_nat len)) as [E|_]; [lia|].
+    go_run. reflexivity.
+Qed.
+
+(* in the model's terms: the read and the CID-checked parse of Car.get_node *)
+Corollary readNode_is_the_models_read_and_parse fuel rv (wanted : list N) (off len : nat) :
+  Z.of_nat off < 4611686018427387904 -> Z.of_nat len < 4611686018427387904 -> (1 <= len)%nat -> (2 <= fuel)%nat ->
+  (forall sec l n, ReadAt.read_at file off len = Some sec -> uvarint_dec sec = Some (l, n) -> (l <= max_section)%N) ->
+  match ReadAt.read_at file off len with
+  | Some sec =>
+      match parse_node cid_parse sec wanted with
+      | Some d => call prog ext_file fuel "readNodeFromReaderAtWithOffsetAndSize"
+                    [rv; cidv wanted; VInt (Z.of_nat off); VInt (Z.of_nat len)] = RRet (VTuple [VInts (zs d); VNil])
+      | None => is_fail (call prog ext_file fuel "readNodeFromReaderAtWithOffsetAndSize"
+                    [rv; cidv wanted; VInt (Z.of_nat off); VInt (Z.of_nat len)])
+      end
+  | None => is_fail (call prog ext_file fuel "readNodeFromReaderAtWithOffsetAndSize"
+                    [rv; cidv wanted; VInt (Z.of_nat off); VInt (Z.of_nat len)])
+  end.
+Proof.
+  intros Hoff Hlen Hpos Hfuel Hmax. rewrite readNode_is_read_then_parse by assumption.
+  destruct (ReadAt.read_at file off len) as [sec|] eqn:Hr; [|eexists; reflexivity].
+  unfold parse_res, parse_node.
+  destruct (uvarint_dec sec) as [[l n]|] eqn:Hd; [|eexists; reflexivity].
+  specialize (Hmax sec l n eq_refl Hd).
+  destruct (N.ltb_spec max_section l) as [Hc|_]; [lia|].
+  destruct (cid_parse (skipn n sec)) as [[c k]|]; [|eexists; reflexivity].
+  unfold list_N_eqb. destruct (list_eq_dec N.eq_dec c wanted); [reflexivity|eexists; reflexivity].
+Qed.
+End ReadNode.
